@@ -259,6 +259,45 @@ pub fn all_lenses() -> Vec<Lens> {
             n_thorough: 7,
         },
         Lens {
+            // the qualifier keys that mean something to the crate itself (typed accessors exist for them),
+            // in several letter cases, with values of the shapes they usually carry
+            name: "A14a-well-known-keys",
+            prefixes: vec!["pkg:t/n?", "pkg:maven/g/n?", "pkg:gem/n?"],
+            alphabet: vec!["repository_url=", "download_url=", "vcs_url=", "file_name=", "checksum=", "classifier=", "type=", "platform=", "Repository_URL=", "CHECKSUM=", "&", "x", "a:00", "https://e.x/a%3Fb", "%20"],
+            suffixes: vec![""],
+            n_quick: 4,
+            n_thorough: 5,
+        },
+        Lens {
+            // real algorithm names (prefixes of each other, with digits and dashes) and real-looking digests
+            name: "A14b-real-algorithms",
+            prefixes: vec!["pkg:t/n?checksum=", "pkg:cargo/n?checksum="],
+            alphabet: vec!["sha1:", "sha256:", "SHA-256:", "sha2:", "md5:", "sha512:", "sha-", "-", "00", "da39a3ee", "ABCD", ",", ":"],
+            suffixes: vec![""],
+            n_quick: 5,
+            n_thorough: 6,
+        },
+        Lens {
+            // artifacts of OTHER encodings as literal text (JSON, HTML, C escapes, a doubly encoded
+            // separator): inside a PURL they are ordinary characters
+            name: "A15-foreign-escapes",
+            prefixes: vec!["pkg:t/n?k=", "pkg:t/n?", "pkg:t/", "pkg:t/n@", "pkg:t/n#"],
+            alphabet: vec!["\\u0026", "\\u003D", "\\/", "\\\\", "&amp;", "&#38;", "\\x26", "%2526", "a", "=", "&", "k"],
+            suffixes: vec![""],
+            n_quick: 4,
+            n_thorough: 5,
+        },
+        Lens {
+            // path segments from the vocabulary of the ecosystems (VCS suffixes, major-version
+            // directories, snapshots): in a namespace or subpath they are segments like any other
+            name: "A16-vocabulary-segments",
+            prefixes: vec!["pkg:golang/", "pkg:npm/", "pkg:maven/", "pkg:t/", "pkg:golang/g/n#", "pkg:t/n#"],
+            alphabet: vec![".git", "x.git", "v2", "%2Egit", "node_modules", "-SNAPSHOT", "/", "a", ".", "@latest"],
+            suffixes: vec![""],
+            n_quick: 4,
+            n_thorough: 6,
+        },
+        Lens {
             // version shapes that a per-ecosystem normaliser would touch (v-prefix, build metadata,
             // pre-release, epoch), under every known type: the typed PURL must leave them alone
             name: "A13-typed-versions",
@@ -433,6 +472,43 @@ fn ladder_gen(tier: Tier) -> Vec<String> {
                 }
             }
         }
+    }
+    // -- "magic" sizes: one below, at and one above the lengths and counts that code tends to care about
+    let magic: [usize; 12] = [255, 256, 512, 1000, 1024, 2048, 4096, 8192, 10000, 32768, 65535, 65536];
+    for (p, s) in frames.iter() {
+        // (unit, decoded bytes per unit); also behind one escaped ASCII letter, which shifts every
+        // multi-byte character off the alignment of any power-of-two chunk
+        for (u, w) in [("a", 1usize), ("é", 2), ("%41", 1), ("%C3%A9", 2), ("%E2%82%AC", 3)] {
+            for m in magic.iter() {
+                if tier == Tier::Quick && *m > 10000 {
+                    continue;
+                }
+                for n in [m - 1, *m, m + 1] {
+                    // n counts bytes of the decoded component
+                    out.push(format!("{p}{}{s}", u.repeat(n / w)));
+                    if w > 1 && n == *m {
+                        out.push(format!("{p}%78{}{s}", u.repeat(n / w + 1)));
+                    }
+                }
+            }
+        }
+    }
+    for m in [999usize, 1000, 1001, 1023, 1024, 1025, 2000, 4096, 5000] {
+        if tier == Tier::Quick && m > 2000 {
+            continue;
+        }
+        for desc in [false, true] {
+            let idx: Vec<usize> = if desc { (0..m).rev().collect() } else { (0..m).collect() };
+            out.push(format!("pkg:t/n?{}", idx.iter().map(|i| format!("k{i:05}=v{i}")).collect::<Vec<_>>().join("&")));
+            out.push(format!("pkg:t/n?checksum={}", idx.iter().map(|i| format!("h{i:05}:{:02x}", i % 256)).collect::<Vec<_>>().join(",")));
+            // the last key repeated in the other case at the very end / the very start
+            out.push(format!("pkg:t/n?{}&K{:05}=w", idx.iter().map(|i| format!("k{i:05}=v{i}")).collect::<Vec<_>>().join("&"), idx[0]));
+            out.push(format!("pkg:t/n?checksum={},H{:05}:ff", idx.iter().map(|i| format!("h{i:05}:{:02x}", i % 256)).collect::<Vec<_>>().join(","), idx[m / 2]));
+        }
+        let segs: Vec<String> = (0..m).map(|i| format!("s{i}")).collect();
+        out.push(format!("pkg:t/{}/n", segs.join("/")));
+        out.push(format!("pkg:t/n#{}", segs.join("/")));
+        out.push(format!("pkg:t/n#{}", segs.join("/../")));
     }
     // -- counts
     let key = |i: usize| format!("k{i:03}");
